@@ -174,9 +174,11 @@ vharness! {
 }
 
 vharness! {
-    /// @prop C16 @tier quick @mode fast @funcs Set::clear,Thread::new @bounds 3 threads with symbolic clocks/states/yield records, symbolic SC-fence view
-    /// thread::Set::clear (run between iterations) leaves exactly the initial state: one runnable main thread without token, all clocks zero, no yield record, no pending operation, the global SC-fence view zero, the new execution id.
+    /// @prop C16 @tier quick @mode fast @funcs Set::clear,Thread::new @bounds 3 threads with symbolic clocks / states / yield records / flags, symbolic SC-fence view and active index; Vec::clear / Vec::truncate stubbed to skip the destructors of the old threads (their thread-local hash maps)
+    /// thread::Set::clear (run between iterations) leaves exactly the initial state: one runnable main thread without token, all clocks (causality, released, DPOR) zero, no yield record, no pending operation, the global SC-fence view zero, the new execution id.
     #[cfg_attr(kani, kani::unwind(8))]
+    #[cfg_attr(kani, kani::stub(std::vec::Vec::clear, crate::rt::verif::stubs::vec_clear_no_drop))]
+    #[cfg_attr(kani, kani::stub(std::vec::Vec::truncate, crate::rt::verif::stubs::vec_truncate_no_drop))]
     fn thread_set_clear_resets() {
         let mut set = mk_set(3);
         havoc_clocks(&mut set, 3);
@@ -201,13 +203,13 @@ vharness! {
         assert!(set.active == Some(0));
         assert!(set.execution_id == new_id);
         let zero = [0u16; MAX_THREADS];
-        assert!(vv_raw(&set.seq_cst_causality) == zero);
+        assert!(le(&vv_raw(&set.seq_cst_causality), &zero));
         let t = &set.threads[0];
         assert!(state_code(&t.state) == 0);
-        assert!(vv_raw(&t.causality) == zero && vv_raw(&t.released) == zero && vv_raw(&t.dpor_vv) == zero);
+        assert!(le(&vv_raw(&t.causality), &zero) && le(&vv_raw(&t.released), &zero) && le(&vv_raw(&t.dpor_vv), &zero));
         assert!(t.last_yield.is_none() && t.yield_count == 0 && !t.critical && t.operation.is_none());
         assert!(t.id == Id::new(new_id, 0));
-        kani::cover!(sc != zero, "SC-fence view was advanced");
+        kani::cover!(!le(&sc, &zero), "SC-fence view was advanced");
         std::mem::forget(set);
     }
 }
